@@ -25,7 +25,7 @@ class HarnessError(Exception):
 
 class Explorer:
     def __init__(self, ctx, alphabet, *, sizes=None, max_states=None,
-                 check_ops=True, prop='C01', base_case=None, prefix=()):
+                 check_ops=True, prop='C01', base_case=None, prefix=(), max_depth=None):
         self.ctx = ctx
         self.alphabet = alphabet
         self.sizes = sizes
@@ -34,6 +34,7 @@ class Explorer:
         self.prop = prop
         self.base_case = base_case or {}
         self.prefix = tuple(prefix)     # scripted build executed before the BFS starts
+        self.depth_bound = max_depth    # states at this BFS depth are monitored but not expanded
         self.violations = []
         self.known = []
         self.n_known = 0
@@ -114,6 +115,9 @@ class Explorer:
                 break
             hist, model, key = frontier.popleft()
             depth = len(hist) - len(self.prefix)
+            if self.depth_bound is not None and depth >= self.depth_bound:
+                self.guards['depth_bound_states'] += 1
+                continue
             first = True
             for op in self.alphabet:
                 slot.set(('E1', ctx.fam, ctx.kind, ctx.impl, self.sizes, hist, op))
